@@ -271,6 +271,8 @@ pub fn c09(rng: &mut Rng, _tier: &str, idx: usize) -> Case {
     let mut flags: Flags = if rng.chance(1, 2) { gen_flags(rng, &mut f) } else { vec![] };
     normalise(&mut f, &mut flags);
     let data_version = !rng.chance(1, 10);
+    // the text route carries the version as YYYY-MM-DD
+    f.version = (f.version.0 % 10000, f.version.1 % 100, f.version.2 % 100);
     if !data_version {
         f.version = (0, 0, 0);
         c.stat("no_data_version_line", 1);
